@@ -7,6 +7,9 @@ NOTE_COMMON = ('Trusted: Coq 8.16.1 kernel; no axioms (Print Assumptions of each
                'the hand-written Gallina model coq/Model/*.v is tied to /repo only by the differential correspondence run of this check (extracted OCaml model vs the crate rebuilt from the working tree, same case files); '
                'extraction with ExtrOcamlBasic only; CRCs, std I/O adapters, allocator and 64-bit usize are modelled, not verified. ')
 T = {
+ 'C14': ('Machine-checked Coq theorem over the model of the raw LzmaDecoder: for EVERY history of decompress calls (any input, any sink, failing or not) and resets, reset(us) yields exactly the DecoderState of a freshly constructed decoder with the same properties, dictionary size, memory limit and re-specified/retained size, hence the next decompress has the same verdict and the same effect on source and sink (induction over histories; invariant: partial-input buffer empty, literal table shape matches lc+lp). The Lzma2Decoder half is covered by the differential run (reused vs fresh decoder, and model), no theorem yet.',
+         'Coq proof (invariant over operation histories) + differential correspondence model/crate',
+         'LZMA2 reset: correspondence only.'),
  'C16': ('Machine-checked Coq theorems over the model of Stream::{write,flush,finish}: after any write that did not return Ok the state is gone, and for EVERY later call sequence writes return Ok(0), flush is Ok, the stream and sink are unchanged and finish fails; once the declared size is reached every write returns Ok(0) leaving decoder, window and sink unchanged (induction over call lists). The model is tied to the code by differential runs of random call sequences.',
          'Coq proof (induction over call sequences) + differential correspondence model/crate',
          'The no-panic clause of C16 is covered by the correspondence run and by C07, not by a theorem yet.'),
